@@ -61,13 +61,13 @@ type c18Ev struct {
 }
 
 type c18Case struct {
-	RateNum   int64   `json:"rate_num"`
-	RateDen   int64   `json:"rate_den"`
-	Burst     int     `json:"burst"`      // as configured, 0 = default
-	ExpiresIn int64   `json:"expires_in"` // ns as configured, 0 = default
-	T0        int64   `json:"t0"`
-	Exact     bool    `json:"exact"`
-	DefaultID bool    `json:"default_extractor"` // DefaultRateLimiterConfig.IdentifierExtractor (RealIP)
+	RateNum   int64 `json:"rate_num"`
+	RateDen   int64 `json:"rate_den"`
+	Burst     int   `json:"burst"`      // as configured, 0 = default
+	ExpiresIn int64 `json:"expires_in"` // ns as configured, 0 = default
+	T0        int64 `json:"t0"`
+	Exact     bool  `json:"exact"`
+	DefaultID bool  `json:"default_extractor"` // DefaultRateLimiterConfig.IdentifierExtractor (RealIP)
 	// CustomHandlers: 0 = default Deny/ErrorHandler; 1 = custom handlers that write their own
 	// 429 / 403 response and return nil; 2 = custom handlers that return an *echo.HTTPError
 	CustomHandlers int `json:"custom_handlers,omitempty"`
@@ -78,8 +78,8 @@ type c18Case struct {
 	// Skew: all events are kind 4 (concurrent Store.Allow calls on a clock that is monotone in
 	// start order; some goroutines are held before AllowN, so the limiter sees their clock
 	// readings out of order: finding F19).  ExpiresIn is long enough that no sweep happens.
-	Skew bool `json:"skew,omitempty"`
-	Evs       []c18Ev `json:"evs"`
+	Skew bool    `json:"skew,omitempty"`
+	Evs  []c18Ev `json:"evs"`
 }
 
 func (c *c18Case) effBurst() int64 {
@@ -298,16 +298,16 @@ func c18GenStress(r *rand.Rand) *c18Case {
 // ---------- skew cases (F19) ----------
 
 type c18SkewCall struct {
-	t       int64
-	hold    bool
+	t         int64
+	hold      bool
 	n         int
 	wasParked bool
 	parked    chan struct{}
-	release chan struct{}
-	done    chan struct{}
-	ok      bool
-	left    int
-	idx     int
+	release   chan struct{}
+	done      chan struct{}
+	ok        bool
+	left      int
+	idx       int
 }
 
 // c18DriveSkew runs the calls of a skew case.  Deterministic: a held call runs in its own
@@ -433,7 +433,7 @@ func c18DriveSkew(c *c18Case) (admitted []bool, order []int, panicked string) {
 
 // F19 allowance (C18_skew_bucket), evaluated on the trace of one identifier in AllowN order:
 // for every segment, admitted <= burst + rate*(newest reading - first reading + 1ns)
-//                               + rate * sum over admitted calls of (newest reading before it - its reading)
+//   - rate * sum over admitted calls of (newest reading before it - its reading)
 func c18SkewAllowance(c *c18Case, ts []int64, adm []bool) string {
 	burst := c.effBurst()
 	S := uint64(c.RateDen * c18Second)
